@@ -78,6 +78,27 @@ func c17(c *Ctx) {
 		GCond("dl.frozen==nil", r, Cmp(Fld(pdb+".diskLayer.frozen"), token.EQL, Nil())),
 		GErrChecked("dl.frozen.waitFlush()", c.Calls(r, "(*"+pdb+".buffer).waitFlush")))
 
+	// the persistent-state path hands no flushed frozen buffer to the reverted
+	// layer (its content belongs to the state being rolled back)
+	var nilFrozen []Site
+	for _, st := range c.Stores(r, pdb+".diskLayer.frozen") {
+		if Nil()(st.Instr.(*ssa.Store).Val) {
+			nilFrozen = append(nilFrozen, st)
+		}
+	}
+	var persistentNew []Site
+	for _, n := range c.Calls(r, pdb+".newDiskLayer") {
+		for _, w := range bw {
+			if instrReaches(w.Instr, n.Instr) {
+				persistentNew = append(persistentNew, n)
+			}
+		}
+	}
+	c.Expect(1, len(persistentNew), "newDiskLayer on the persistent-state path of revert")
+	c.Dom("frozen-released", r, persistentNew, "newDiskLayer(after batch.Write)",
+		GCond("dl.frozen==nil", r, Cmp(Fld(pdb+".diskLayer.frozen"), token.EQL, Nil())),
+		GSites("dl.frozen = nil", nilFrozen))
+
 	c.Rule("DOM/C17.meta")
 	all := cat(effects, stale, c.Calls(r, pdb+".apply"))
 	c.Dom("history-root", r, all, "effect",
